@@ -12,6 +12,7 @@ import (
 	"io"
 	"sort"
 	"sync"
+	"time"
 
 	"github.com/theparanoids/ysshra/agent/ssh/connection"
 	"github.com/theparanoids/ysshra/keyid"
@@ -471,6 +472,11 @@ func (s *Server) SignWithFlags(key ssh.PublicKey, data []byte, flags agent.Signa
 	// request to the underlying agent with the correct public key.
 	// public key to tell ssh-agent which key it should use.
 	if cert, err := keyutil.CastSSHPublicKeyToCertificate(key); err == nil {
+		// The filter purged what the underlying agent listed; another client of that agent may have added
+		// the certificate (again) since. A certificate outside its validity window never signs.
+		if !certutil.ValidateSSHCertTime(cert, time.Now()) {
+			return nil, errAgentNotFoundKey
+		}
 		keyHash := hash(cert.Marshal())
 		if _, ok := s.certs[keyHash]; ok {
 			return s.agent.SignWithFlags(cert.Key, data, flags)
